@@ -345,10 +345,10 @@ func (r *flowRun) recoveryProbe(net *simnet.Net, eps []*endpoint) {
 					simrt.Fail("C09-no-reconnect", "endpoint %d: the auto-connect client is not connected %v after the fault although the server is listening", i, bound)
 				}
 			}
-			st := r.probeOnce(ep)
+			st := r.probeOnce(ep.client.Channel)
 			if !st.OK() {
 				// a connection that died during the probe itself is not the client's fault; try once more
-				st = r.probeOnce(ep)
+				st = r.probeOnce(ep.client.Channel)
 			}
 			if !st.OK() {
 				simrt.Fail("C09-no-recovery", "endpoint %d (%s client): a call after the fault failed although the server is reachable: %s", i, ep.kind, stName(st))
@@ -357,8 +357,8 @@ func (r *flowRun) recoveryProbe(net *simnet.Net, eps []*endpoint) {
 	}
 }
 
-func (r *flowRun) probeOnce(ep *endpoint) status.Status {
-	ch, st := ep.client.Channel(r.bg)
+func (r *flowRun) probeOnce(open opener) status.Status {
+	ch, st := open(r.bg)
 	if !st.OK() {
 		return st
 	}
